@@ -12,6 +12,7 @@ import (
 	"fmt"
 	"go/ast"
 	"go/parser"
+	"go/printer"
 	"go/token"
 	"path/filepath"
 	"strconv"
@@ -33,6 +34,9 @@ func gxOf(e ast.Expr) string {
 		if x.Name == "nil" {
 			return "GNil"
 		}
+		if v, ok := bindings[x.Name]; ok {
+			return v // a local the block has just defined: its defining expression
+		}
 		return "(GSel [" + coqStr(x.Name) + "])"
 	case *ast.SelectorExpr:
 		if p, ok := selPath(x); ok {
@@ -49,6 +53,11 @@ func gxOf(e ast.Expr) string {
 				return fmt.Sprintf("(GLit %d)", z)
 			}
 		}
+		if x.Kind == token.STRING {
+			if v, err := strconv.Unquote(x.Value); err == nil {
+				return "(GStr " + coqStr(v) + ")"
+			}
+		}
 		return "(GUnknown " + coqStr(x.Value) + ")"
 	case *ast.BinaryExpr:
 		return "(GBin " + coqStr(x.Op.String()) + " " + gxOf(x.X) + " " + gxOf(x.Y) + ")"
@@ -63,11 +72,25 @@ func gxOf(e ast.Expr) string {
 		}
 		return "(GUnknown " + coqStr("composite literal with fields") + ")"
 	case *ast.CallExpr:
+		args := x.Args
+		if len(args) >= 1 {
+			if id, ok := args[0].(*ast.Ident); ok && (id.Name == "ctx" || id.Name == "sdkCtx") {
+				args = args[1:] // the context parameter carries no data of the message
+			}
+		}
+		x = &ast.CallExpr{Fun: x.Fun, Args: args}
 		arg := "None"
 		if len(x.Args) == 1 {
 			arg = "(Some " + gxOf(x.Args[0]) + ")"
 		} else if len(x.Args) > 1 {
-			return "(GUnknown " + coqStr("call with several arguments: "+exprString(x.Fun)) + ")"
+			if !pairArguments {
+				return "(GUnknown " + coqStr("call with several arguments: "+exprString(x.Fun)) + ")"
+			}
+			a := gxOf(x.Args[0]) // several arguments: a right-nested "," pair (authority extraction only)
+			for _, more := range x.Args[1:] {
+				a = "(GBin \",\" " + a + " " + gxOf(more) + ")"
+			}
+			arg = "(Some " + a + ")"
 		}
 		if sel, ok := x.Fun.(*ast.SelectorExpr); ok {
 			// a method call on a value (receiver is a selector path or another call), or a package function
@@ -84,6 +107,20 @@ func gxOf(e ast.Expr) string {
 }
 
 var guardPackages = map[string]bool{}
+
+// pairArguments: calls with several arguments become one "," pair instead of GUnknown (set by genAuthority only, so that the guard
+// lists of validation.go keep their shape)
+var pairArguments bool
+
+// valueResult: the function under translation returns one value that is not an error (IsAdmin, GetAdmin)
+var valueResult bool
+
+// bindings: locals defined by "name := expr" or "name, err := CALL" inside the block under translation (authority / limit extraction
+// only; nil otherwise)
+var bindings map[string]string
+
+// nestedGuards: an if whose body is itself a list of guards is flattened (authority extraction only)
+var nestedGuards bool
 
 func isPackageName(n string) bool { return guardPackages[n] }
 
@@ -136,15 +173,46 @@ func retOf(s ast.Stmt) string {
 		return "RSameErr"
 	}
 	if id, ok := last.(*ast.Ident); ok && id.Name == "nil" {
+		if nestedGuards && len(r.Results) == 2 {
+			if id0, ok := r.Results[0].(*ast.Ident); !ok || id0.Name != "nil" {
+				return "(RExpr " + gxOf(r.Results[0]) + ")" // (value, nil)
+			}
+		}
 		return "ROk"
+	}
+	if valueResult && len(r.Results) == 1 {
+		return "(RExpr " + gxOf(last) + ")"
+	}
+	if call, isCall := last.(*ast.CallExpr); isCall && nestedGuards && !isErrorCtor(call) && strings.HasPrefix(errOf(last), "?") {
+		return "(RExpr " + gxOf(last) + ")" // "return k.SetX(ctx, v)": the result of another keeper call
 	}
 	return "(RErr " + coqStr(errOf(last)) + ")"
 }
 
+func isErrorCtor(c *ast.CallExpr) bool {
+	if sel, ok := c.Fun.(*ast.SelectorExpr); ok {
+		switch sel.Sel.Name {
+		case "Wrap", "Wrapf", "Errorf":
+			return true
+		}
+	}
+	return false
+}
+
+// the body of an if that only returns: one return statement, or a print followed by a return
 func singleReturn(b *ast.BlockStmt) (ast.Stmt, bool) {
 	if b != nil && len(b.List) == 1 {
 		if _, ok := b.List[0].(*ast.ReturnStmt); ok {
 			return b.List[0], true
+		}
+	}
+	if b != nil && len(b.List) == 2 { // fmt.Println(...) ; return ...
+		if es, ok := b.List[0].(*ast.ExprStmt); ok {
+			if call, ok := es.X.(*ast.CallExpr); ok && strings.HasPrefix(exprString(call.Fun), "fmt.Print") {
+				if _, ok := b.List[1].(*ast.ReturnStmt); ok {
+					return b.List[1], true
+				}
+			}
 		}
 	}
 	return nil, false
@@ -176,20 +244,118 @@ func errAssign(s ast.Stmt) (ast.Expr, bool) {
 	return a.Rhs[0], true
 }
 
-func guardsOf(body *ast.BlockStmt) []string {
+// "ok := CALL" and "!ok"
+func okAssign(s ast.Stmt) (ast.Expr, bool) {
+	a, ok := s.(*ast.AssignStmt)
+	if !ok || a.Tok != token.DEFINE || len(a.Rhs) != 1 || len(a.Lhs) != 1 {
+		return nil, false
+	}
+	if _, ok := a.Lhs[0].(*ast.Ident); !ok {
+		return nil, false
+	}
+	if _, ok := a.Rhs[0].(*ast.CallExpr); !ok {
+		return nil, false
+	}
+	return a.Rhs[0], true
+}
+
+// "!name" for the name the init statement has just defined
+func isNotOk(init ast.Stmt, e ast.Expr) bool {
+	u, ok := e.(*ast.UnaryExpr)
+	if !ok || u.Op != token.NOT {
+		return false
+	}
+	id, ok := u.X.(*ast.Ident)
+	return ok && id.Name == init.(*ast.AssignStmt).Lhs[0].(*ast.Ident).Name
+}
+
+// "var name T" without a value
+func isPlainVarDecl(s *ast.DeclStmt) bool {
+	gd, ok := s.Decl.(*ast.GenDecl)
+	if !ok || gd.Tok != token.VAR {
+		return false
+	}
+	for _, sp := range gd.Specs {
+		vs, ok := sp.(*ast.ValueSpec)
+		if !ok || len(vs.Values) != 0 {
+			return false
+		}
+	}
+	return true
+}
+
+// x.Logger().Debug(...) / Info / Error
+func isLoggingCall(e ast.Expr) bool {
+	call, ok := e.(*ast.CallExpr)
+	if !ok {
+		return false
+	}
+	sel, ok := call.Fun.(*ast.SelectorExpr)
+	if !ok {
+		return false
+	}
+	switch sel.Sel.Name {
+	case "Debug", "Info", "Warn", "Error":
+	default:
+		return false
+	}
+	inner, ok := sel.X.(*ast.CallExpr)
+	if !ok {
+		return false
+	}
+	isel, ok := inner.Fun.(*ast.SelectorExpr)
+	return ok && isel.Sel.Name == "Logger" && len(inner.Args) == 0
+}
+
+func guardsOf(body *ast.BlockStmt) []string { return guardsOfWithPending(body, nil) }
+
+func guardsOfWithPending(body *ast.BlockStmt, pendingCall ast.Expr) []string {
 	var out []string
 	guard := func(c, r string) { out = append(out, "{| g_cond := "+c+"; g_ret := "+r+" |}") }
-	var pendingCall ast.Expr // "_, err := CALL" waiting for its "if err != nil"
+	// pendingCall: "_, err := CALL" waiting for its "if err != nil"
 	for i, st := range body.List {
 		switch s := st.(type) {
 		case *ast.AssignStmt:
 			if call, ok := errAssign(s); ok && pendingCall == nil {
 				pendingCall = call
+				if bindings != nil && len(s.Lhs) == 2 {
+					if id, ok := s.Lhs[0].(*ast.Ident); ok && id.Name != "_" {
+						bindings[id.Name] = gxOf(call)
+					}
+				}
 				continue
+			}
+			if bindings != nil && s.Tok == token.DEFINE && len(s.Lhs) == 1 && len(s.Rhs) == 1 {
+				if id, ok := s.Lhs[0].(*ast.Ident); ok && id.Name != "_" && id.Name != "err" {
+					bindings[id.Name] = gxOf(s.Rhs[0])
+					continue
+				}
 			}
 			guard("(GUnknown "+coqStr("assignment")+")", "(RUnknown \"\")")
 		case *ast.IfStmt:
 			ret, ok := singleReturn(s.Body)
+			if ok && s.Else != nil && nestedGuards {
+				// "if A { return x } else if B { return y }": every branch returns, so the chain is a sequence of guards
+				if next, isIf := s.Else.(*ast.IfStmt); isIf {
+					first := *s
+					first.Else = nil
+					saved := pendingCall
+					sub := guardsOfWithPending(&ast.BlockStmt{List: []ast.Stmt{&first, next}}, saved)
+					pendingCall = nil
+					out = append(out, sub...)
+					continue
+				}
+			}
+			if !ok && s.Else == nil && s.Init == nil && nestedGuards {
+				// "if C { guards }": every inner guard applies under C
+				inner := guardsOf(s.Body)
+				c := gxOf(s.Cond)
+				for _, g := range inner {
+					out = append(out, strings.Replace(g, "{| g_cond := ", "{| g_cond := (GBin \"&&\" "+c+" ", 1))
+					out[len(out)-1] = strings.Replace(out[len(out)-1], "; g_ret := ", "); g_ret := ", 1)
+				}
+				continue
+			}
 			if !ok || s.Else != nil {
 				guard("(GUnknown "+coqStr("if with a body that is not a single return")+")", "(RUnknown \"\")")
 				continue
@@ -198,6 +364,8 @@ func guardsOf(body *ast.BlockStmt) []string {
 			case s.Init != nil:
 				if call, ok := errAssign(s.Init); ok && isErrNotNil(s.Cond) {
 					guard("(GFails "+gxOf(call)+")", retOf(ret))
+				} else if call, ok := okAssign(s.Init); ok && isNotOk(s.Init, s.Cond) {
+					guard("(GNot "+gxOf(call)+")", retOf(ret))
 				} else {
 					guard("(GUnknown "+coqStr("if with init")+")", "(RUnknown \"\")")
 				}
@@ -230,6 +398,16 @@ func guardsOf(body *ast.BlockStmt) []string {
 			} else {
 				guard("(GUnknown "+coqStr("early return")+")", "(RUnknown \"\")")
 			}
+		case *ast.DeclStmt:
+			if bindings != nil && isPlainVarDecl(s) {
+				continue // "var err error"
+			}
+			guard("(GUnknown "+coqStr("declaration")+")", "(RUnknown \"\")")
+		case *ast.ExprStmt:
+			if bindings != nil && isLoggingCall(s.X) {
+				continue // k.Logger().Debug(...): no effect on the result
+			}
+			guard("(GUnknown "+coqStr("expression statement")+")", "(RUnknown \"\")")
 		default:
 			guard("(GUnknown "+coqStr(fmt.Sprintf("%T", st))+")", "(RUnknown \"\")")
 		}
@@ -325,6 +503,8 @@ func srcString(e ast.Expr) string {
 		return x.Op.String() + srcString(x.X)
 	case *ast.BasicLit:
 		return x.Value
+	case *ast.SelectorExpr:
+		return srcString(x.X) + "." + x.Sel.Name
 	}
 	return exprString(e)
 }
@@ -386,5 +566,471 @@ func genConversions() (string, error) {
 		b.WriteString("Definition x_conv_" + name + "_shape : string := " + coqStr(shape) + ".\n")
 		b.WriteString("Definition x_conv_" + name + " : list (string * string) := [\n  " + strings.Join(ps, ";\n  ") + "\n].\n\n")
 	}
+	return b.String(), nil
+}
+
+// ---- keeper/msg_server.go: the parameter set UpdateStakingParams stores, as a field map ------------------------------------
+
+func init() { factGenerators["ExtractedParamsMap.v"] = genParamsMap }
+
+func genParamsMap() (string, error) {
+	fset := token.NewFileSet()
+	f, err := parser.ParseFile(fset, filepath.Join(repoRoot, "keeper", "msg_server.go"), nil, 0)
+	if err != nil {
+		return "", err
+	}
+	var pairs [][2]string
+	shape := "method not found"
+	stored := "?"
+	for _, d := range f.Decls {
+		fd, ok := d.(*ast.FuncDecl)
+		if !ok || fd.Recv == nil || fd.Name.Name != "UpdateStakingParams" || fd.Body == nil {
+			continue
+		}
+		shape = "no Params literal"
+		var litVar string
+		nlit := 0
+		ast.Inspect(fd.Body, func(n ast.Node) bool {
+			switch x := n.(type) {
+			case *ast.AssignStmt:
+				if len(x.Lhs) == 1 && len(x.Rhs) == 1 {
+					if lit, ok := x.Rhs[0].(*ast.CompositeLit); ok && strings.HasSuffix(exprString(lit.Type), "Params") {
+						nlit++
+						if id, ok := x.Lhs[0].(*ast.Ident); ok {
+							litVar = id.Name
+						}
+						pairs = nil
+						flattenLit("", lit, &pairs)
+						shape = "one Params literal assigned to " + litVar
+					}
+				}
+			case *ast.CallExpr:
+				if sel, ok := x.Fun.(*ast.SelectorExpr); ok && sel.Sel.Name == "SetParams" && len(x.Args) == 2 {
+					stored = srcString(x.Args[1])
+				}
+			}
+			return true
+		})
+		if nlit != 1 {
+			shape = fmt.Sprintf("%d Params literals", nlit)
+		}
+	}
+	var ps []string
+	for _, p := range pairs {
+		ps = append(ps, "("+coqStr(p[0])+", "+coqStr(p[1])+")")
+	}
+	var b strings.Builder
+	b.WriteString("(* GENERATED by `harness factgen` from /repo/keeper/msg_server.go — do not edit. *)\nFrom Coq Require Import List String.\nImport ListNotations.\nOpen Scope string_scope.\n\n")
+	b.WriteString("Definition x_params_shape : string := " + coqStr(shape) + ".\n")
+	b.WriteString("Definition x_params_stored : string := " + coqStr(stored) + ".\n")
+	b.WriteString("Definition x_params_map : list (string * string) := [\n  " + strings.Join(ps, ";\n  ") + "\n].\n")
+	return b.String(), nil
+}
+
+
+// ---- the authority gate: keeper.IsAdmin and the first statement of every message handler ------------------------------------
+
+func init() { factGenerators["ExtractedAuthority.v"] = genAuthority }
+
+func methodBody(file, recvSuffix, name string) (*ast.BlockStmt, error) {
+	f, err := parser.ParseFile(token.NewFileSet(), filepath.Join(repoRoot, file), nil, 0)
+	if err != nil {
+		return nil, err
+	}
+	for _, im := range f.Imports {
+		p, _ := strconv.Unquote(im.Path.Value)
+		n := filepath.Base(p)
+		if im.Name != nil {
+			n = im.Name.Name
+		}
+		guardPackages[n] = true
+	}
+	for _, d := range f.Decls {
+		if fd, ok := d.(*ast.FuncDecl); ok && fd.Recv != nil && len(fd.Recv.List) == 1 && fd.Name.Name == name && fd.Body != nil &&
+			strings.HasSuffix(exprString(fd.Recv.List[0].Type), recvSuffix) {
+			return fd.Body, nil
+		}
+	}
+	return nil, nil
+}
+
+func genAuthority() (string, error) {
+	pairArguments, nestedGuards, bindings = true, true, map[string]string{}
+	defer func() { pairArguments, nestedGuards, bindings = false, false, nil }()
+	var b strings.Builder
+	b.WriteString("(* GENERATED by `harness factgen` from /repo/keeper/keeper.go and /repo/keeper/msg_server.go — do not edit. *)\nFrom Coq Require Import ZArith List String.\nRequire Import Tie.GuardLang.\nImport ListNotations.\nOpen Scope string_scope.\nOpen Scope Z_scope.\n\n")
+	unknown := "[{| g_cond := GUnknown \"method not found\"; g_ret := RUnknown \"\" |}]"
+	body, err := methodBody("keeper/keeper.go", "Keeper", "IsAdmin")
+	if err != nil {
+		return "", err
+	}
+	if body != nil {
+		valueResult = true
+		gs := guardsOf(body)
+		valueResult = false
+		b.WriteString("Definition x_guards_Keeper_IsAdmin : list guard := [\n  " + strings.Join(gs, ";\n  ") + "\n].\n\n")
+	} else {
+		b.WriteString("Definition x_guards_Keeper_IsAdmin : list guard := " + unknown + ".\n\n")
+	}
+	body, err = methodBody("keeper/keeper.go", "Keeper", "IsSenderValidator")
+	if err != nil {
+		return "", err
+	}
+	if body != nil {
+		b.WriteString("Definition x_guards_Keeper_IsSenderValidator : list guard := [\n  " + strings.Join(guardsOf(body), ";\n  ") + "\n].\n\n")
+	} else {
+		b.WriteString("Definition x_guards_Keeper_IsSenderValidator : list guard := " + unknown + ".\n\n")
+	}
+	// GetAdmin — what the authority query reports — and the query handler's response
+	body, err = methodBody("keeper/keeper.go", "Keeper", "GetAdmin")
+	if err != nil {
+		return "", err
+	}
+	if body != nil {
+		valueResult = true
+		gs := guardsOf(body)
+		valueResult = false
+		b.WriteString("Definition x_guards_Keeper_GetAdmin : list guard := [\n  " + strings.Join(gs, ";\n  ") + "\n].\n\n")
+	} else {
+		b.WriteString("Definition x_guards_Keeper_GetAdmin : list guard := " + unknown + ".\n\n")
+	}
+	reported := "?"
+	if qb, err := methodBody("keeper/query_server.go", "queryServer", "PoaAuthority"); err != nil {
+		return "", err
+	} else if qb != nil && len(qb.List) == 1 {
+		if ret, ok := qb.List[0].(*ast.ReturnStmt); ok && len(ret.Results) == 2 {
+			if u, ok := ret.Results[0].(*ast.UnaryExpr); ok && u.Op == token.AND {
+				if lit, ok := u.X.(*ast.CompositeLit); ok && len(lit.Elts) == 1 {
+					if kv, ok := lit.Elts[0].(*ast.KeyValueExpr); ok && exprString(kv.Key) == "Authority" {
+						if id, ok := ret.Results[1].(*ast.Ident); ok && id.Name == "nil" {
+							reported = srcString(kv.Value)
+						}
+					}
+				}
+			}
+		}
+	}
+	b.WriteString("Definition x_authority_query_reports : string := " + coqStr(reported) + ".\n\n")
+	// CreateValidator is open to everybody: its body never consults IsAdmin
+	mentions := "true"
+	if cb, err := methodBody("keeper/msg_server.go", "msgServer", "CreateValidator"); err != nil {
+		return "", err
+	} else if cb != nil {
+		mentions = "false"
+		ast.Inspect(cb, func(n ast.Node) bool {
+			if sel, ok := n.(*ast.SelectorExpr); ok && (sel.Sel.Name == "IsAdmin" || sel.Sel.Name == "GetAdmin") {
+				mentions = "true"
+			}
+			return true
+		})
+	}
+	b.WriteString("Definition x_mentions_IsAdmin_CreateValidator : bool := " + mentions + ".\n\n")
+	for _, h := range []string{"SetPower", "RemoveValidator", "RemovePending", "UpdateStakingParams"} {
+		body, err := methodBody("keeper/msg_server.go", "msgServer", h)
+		if err != nil {
+			return "", err
+		}
+		first := unknown
+		if body != nil && len(body.List) > 0 {
+			bindings = map[string]string{}
+			gs := guardsOf(&ast.BlockStmt{List: body.List[:1]})
+			first = "[" + strings.Join(gs, "; ") + "]"
+		}
+		b.WriteString("Definition x_first_guard_" + h + " : list guard := " + first + ".\n\n")
+	}
+	// the per-block limit: the statement of SetPower whose condition reads msg.Unsafe
+	limit := unknown
+	if body, err := methodBody("keeper/msg_server.go", "msgServer", "SetPower"); err != nil {
+		return "", err
+	} else if body != nil {
+		var found []ast.Stmt
+		for _, st := range body.List {
+			if ifs, ok := st.(*ast.IfStmt); ok {
+				reads := false
+				ast.Inspect(ifs.Cond, func(n ast.Node) bool {
+					if sel, ok := n.(*ast.SelectorExpr); ok && sel.Sel.Name == "Unsafe" {
+						reads = true
+					}
+					return true
+				})
+				if reads {
+					found = append(found, st)
+				}
+			}
+		}
+		if len(found) == 1 {
+			bindings = map[string]string{}
+			limit = "[\n  " + strings.Join(guardsOf(&ast.BlockStmt{List: found}), ";\n  ") + "\n]"
+		}
+	}
+	b.WriteString("Definition x_limit_SetPower : list guard := " + limit + ".\n\n")
+	return b.String(), nil
+}
+
+
+// ---- keeper helpers that are sequences of guarded returns: ensureActiveValidator (C02), sameOperator (C10) -----------------
+
+func init() { factGenerators["ExtractedKeeper.v"] = genKeeperGuards }
+
+func genKeeperGuards() (string, error) {
+	pairArguments, nestedGuards, bindings = true, true, map[string]string{}
+	defer func() { pairArguments, nestedGuards, bindings, valueResult = false, false, nil, false }()
+	var b strings.Builder
+	b.WriteString("(* GENERATED by `harness factgen` from /repo/keeper/poa.go and /repo/keeper/pending.go — do not edit. *)\nFrom Coq Require Import ZArith List String.\nRequire Import Tie.GuardLang.\nImport ListNotations.\nOpen Scope string_scope.\nOpen Scope Z_scope.\n\n")
+	unknown := "[{| g_cond := GUnknown \"method not found\"; g_ret := RUnknown \"\" |}]"
+	for _, m := range [][3]string{{"keeper/poa.go", "ensureActiveValidator", ""}, {"keeper/pending.go", "sameOperator", "value"},
+		{"keeper/keeper.go", "ResetCachedTotalPower", ""}, {"keeper/keeper.go", "ResetAbsoluteBlockPower", ""},
+		{"keeper/store.go", "IncreaseAbsoluteChangedInBlockPower", ""}} {
+		body, err := methodBody(m[0], "Keeper", m[1])
+		if err != nil {
+			return "", err
+		}
+		def := unknown
+		if body != nil {
+			bindings = map[string]string{}
+			valueResult = m[2] == "value"
+			def = "[\n  " + strings.Join(guardsOf(body), ";\n  ") + "\n]"
+			valueResult = false
+		}
+		b.WriteString("Definition x_guards_Keeper_" + m[1] + " : list guard := " + def + ".\n\n")
+	}
+	// the statement of the module's BeginBlocker that reads the block height: the two resets
+	reset := unknown
+	if body, err := methodBody("module/abci.go", "AppModule", "BeginBlocker"); err != nil {
+		return "", err
+	} else if body != nil {
+		var found []ast.Stmt
+		for _, st := range body.List {
+			if ifs, ok := st.(*ast.IfStmt); ok {
+				reads := false
+				ast.Inspect(ifs.Cond, func(n ast.Node) bool {
+					if sel, ok := n.(*ast.SelectorExpr); ok && sel.Sel.Name == "BlockHeight" {
+						reads = true
+					}
+					return true
+				})
+				if reads {
+					found = append(found, st)
+				}
+			}
+		}
+		if len(found) == 1 {
+			bindings = map[string]string{}
+			reset = "[\n  " + strings.Join(guardsOf(&ast.BlockStmt{List: found}), ";\n  ") + "\n]"
+		}
+	}
+	b.WriteString("Definition x_begin_blocker_reset : list guard := " + reset + ".\n\n")
+	return b.String(), nil
+}
+
+
+// ---- keeper/slashing.go: the calls setSlashingInfo / clearSlashingInfo make, in order, and the signing info they store (C13) ----
+
+func init() { factGenerators["ExtractedSigningInfo.v"] = genSigningInfo }
+
+// every call of a statement list in source order, as "receiver.path.Method" (arguments dropped); conversions such as
+// sdk.ConsAddress(x) and the context unwrapping are not calls on a keeper and are left out
+func callsInOrder(body *ast.BlockStmt) []string {
+	var out []string
+	ast.Inspect(body, func(n ast.Node) bool {
+		call, ok := n.(*ast.CallExpr)
+		if !ok {
+			return true
+		}
+		if sel, ok := call.Fun.(*ast.SelectorExpr); ok {
+			if p, ok := selPath(sel); ok && len(p) >= 2 && p[0] != "sdk" && p[0] != "sdkCtx" && p[0] != "ctx" && p[0] != "fmt" && p[len(p)-1] != "Logger" {
+				out = append(out, strings.Join(p, "."))
+			}
+		}
+		return true
+	})
+	return out
+}
+
+func genSigningInfo() (string, error) {
+	var b strings.Builder
+	b.WriteString("(* GENERATED by `harness factgen` from /repo/keeper/slashing.go — do not edit. *)\nFrom Coq Require Import List String.\nImport ListNotations.\nOpen Scope string_scope.\n\n")
+	for _, name := range []string{"setSlashingInfo", "clearSlashingInfo"} {
+		body, err := methodBody("keeper/slashing.go", "Keeper", name)
+		if err != nil {
+			return "", err
+		}
+		calls := []string{"?"}
+		var pairs [][2]string
+		lits := 0
+		if body != nil {
+			calls = callsInOrder(body)
+			ast.Inspect(body, func(n ast.Node) bool {
+				if lit, ok := n.(*ast.CompositeLit); ok && strings.HasSuffix(exprString(lit.Type), "ValidatorSigningInfo") {
+					lits++
+					flattenLit("", lit, &pairs)
+					return false
+				}
+				return true
+			})
+		}
+		cs := make([]string, len(calls))
+		for i, c := range calls {
+			cs[i] = coqStr(c)
+		}
+		ps := make([]string, len(pairs))
+		for i, p := range pairs {
+			ps[i] = "(" + coqStr(p[0]) + ", " + coqStr(p[1]) + ")"
+		}
+		b.WriteString("Definition x_" + name + "_calls : list string := [" + strings.Join(cs, "; ") + "].\n")
+		b.WriteString(fmt.Sprintf("Definition x_%s_literals : nat := %d.\n", name, lits))
+		b.WriteString("Definition x_" + name + "_info : list (string * string) := [\n  " + strings.Join(ps, ";\n  ") + "\n].\n\n")
+	}
+	return b.String(), nil
+}
+
+
+// ---- keeper.SetPOAPower: the expressions that make up the term a change adds to the running sum (C05, C14) -----------------
+
+func init() { factGenerators["ExtractedSpend.v"] = genSpend }
+
+func goText(e ast.Node) string {
+	var sb strings.Builder
+	if err := printer.Fprint(&sb, token.NewFileSet(), e); err != nil {
+		return "?"
+	}
+	return strings.Join(strings.Fields(sb.String()), " ")
+}
+
+func genSpend() (string, error) {
+	var b strings.Builder
+	b.WriteString("(* GENERATED by `harness factgen` from /repo/keeper/poa.go — do not edit. *)\nFrom Coq Require Import List String.\nImport ListNotations.\nOpen Scope string_scope.\n\n")
+	body, err := methodBody("keeper/poa.go", "Keeper", "SetPOAPower")
+	if err != nil {
+		return "", err
+	}
+	// every definition or assignment of these locals at the top level of the body, in order: "name := text" / "name = text";
+	// an if statement at the top level that assigns one of them: "if COND { name = text }"
+	watch := map[string]bool{"newBFTConsensusPower": true, "currentTokens": true, "powerBefore": true, "absPowerDiff": true}
+	var defs []string
+	var increase []string
+	if body != nil {
+		assignText := func(a *ast.AssignStmt) (string, bool) {
+			if len(a.Lhs) == 1 && len(a.Rhs) == 1 {
+				if id, ok := a.Lhs[0].(*ast.Ident); ok && watch[id.Name] {
+					return id.Name + " " + a.Tok.String() + " " + goText(a.Rhs[0]), true
+				}
+				if sel, ok := a.Lhs[0].(*ast.SelectorExpr); ok && exprString(sel) == "val.Tokens" {
+					return "val.Tokens " + a.Tok.String() + " " + goText(a.Rhs[0]), true
+				}
+			}
+			return "", false
+		}
+		for _, st := range body.List {
+			switch s := st.(type) {
+			case *ast.AssignStmt:
+				if t, ok := assignText(s); ok {
+					defs = append(defs, t)
+				}
+			case *ast.IfStmt:
+				touched := false
+				ast.Inspect(s, func(n ast.Node) bool {
+					if a, ok := n.(*ast.AssignStmt); ok {
+						if _, ok := assignText(a); ok {
+							touched = true
+						}
+					}
+					return true
+				})
+				if touched {
+					defs = append(defs, goText(s))
+				}
+			}
+		}
+		ast.Inspect(body, func(n ast.Node) bool {
+			if call, ok := n.(*ast.CallExpr); ok {
+				if sel, ok := call.Fun.(*ast.SelectorExpr); ok && sel.Sel.Name == "IncreaseAbsoluteChangedInBlockPower" {
+					increase = append(increase, goText(call))
+				}
+			}
+			return true
+		})
+	}
+	q := func(l []string) string {
+		qs := make([]string, len(l))
+		for i, x := range l {
+			qs[i] = coqStr(x)
+		}
+		return "[\n  " + strings.Join(qs, ";\n  ") + "\n]"
+	}
+	b.WriteString("Definition x_setpoa_spend_definitions : list string := " + q(defs) + ".\n\n")
+	b.WriteString("Definition x_setpoa_increase_calls : list string := " + q(increase) + ".\n")
+	return b.String(), nil
+}
+
+
+// ---- msgServer.RemoveValidator: the last-validator guard and the existence / bonded test (C04) ------------------------------
+
+func init() { factGenerators["ExtractedRemove.v"] = genRemove }
+
+func genRemove() (string, error) {
+	pairArguments, nestedGuards, bindings = true, true, map[string]string{}
+	defer func() { pairArguments, nestedGuards, bindings = false, false, nil }()
+	var b strings.Builder
+	b.WriteString("(* GENERATED by `harness factgen` from /repo/keeper/msg_server.go — do not edit. *)\nFrom Coq Require Import ZArith List String.\nRequire Import Tie.GuardLang.\nImport ListNotations.\nOpen Scope string_scope.\nOpen Scope Z_scope.\n\n")
+	body, err := methodBody("keeper/msg_server.go", "msgServer", "RemoveValidator")
+	if err != nil {
+		return "", err
+	}
+	// "for _, val := range vals { if COND { others++ } }": the condition under which a validator counts as another signer
+	counts := "(GUnknown \"no loop that increments others\")"
+	nCount := 0
+	// "if others == 0 { return ... }"
+	guardOthers := "[{| g_cond := GUnknown \"no test of others\"; g_ret := RUnknown \"\" |}]"
+	// statements between the authority gate and the loop that could change "others" are listed by kind
+	if body != nil {
+		for _, st := range body.List {
+			switch s := st.(type) {
+			case *ast.RangeStmt:
+				if len(s.Body.List) == 1 {
+					if ifs, ok := s.Body.List[0].(*ast.IfStmt); ok && ifs.Init == nil && ifs.Else == nil && len(ifs.Body.List) == 1 {
+						if inc, ok := ifs.Body.List[0].(*ast.IncDecStmt); ok && inc.Tok == token.INC && exprString(inc.X) == "others" {
+							counts = gxOf(ifs.Cond)
+							nCount++
+						}
+					}
+				}
+			case *ast.IfStmt:
+				mentions := false
+				ast.Inspect(s.Cond, func(n ast.Node) bool {
+					if id, ok := n.(*ast.Ident); ok && id.Name == "others" {
+						mentions = true
+					}
+					return true
+				})
+				if mentions {
+					guardOthers = "[" + strings.Join(guardsOf(&ast.BlockStmt{List: []ast.Stmt{s}}), "; ") + "]"
+				}
+			}
+		}
+	}
+	// every place that writes "others"
+	writes := 0
+	if body != nil {
+		ast.Inspect(body, func(n ast.Node) bool {
+			switch x := n.(type) {
+			case *ast.IncDecStmt:
+				if exprString(x.X) == "others" {
+					writes++
+				}
+			case *ast.AssignStmt:
+				for _, l := range x.Lhs {
+					if exprString(l) == "others" {
+						writes++
+					}
+				}
+			}
+			return true
+		})
+	}
+	b.WriteString("Definition x_remove_counts_as_other_signer : gx := " + counts + ".\n\n")
+	b.WriteString(fmt.Sprintf("Definition x_remove_counting_loops : nat := %d.\n\n", nCount))
+	b.WriteString(fmt.Sprintf("Definition x_remove_writes_of_others : nat := %d.\n\n", writes))
+	b.WriteString("Definition x_remove_last_validator_guard : list guard := " + guardOthers + ".\n")
 	return b.String(), nil
 }
